@@ -1831,6 +1831,11 @@ def compare_front(d, exp):
             return "token %s has code %d, expected %d" % (n, g["value"], e["value"])
         if (g["prec"], g["assoc"]) != e["level"] and not g["nt"]:
             return "token %s has precedence %s, expected %s" % (n, (g["prec"], g["assoc"]), e["level"])
+    # "token numbers" are read faithfully only if every terminal still has a code of its own
+    tv = sorted((v["value"], v["name"]) for v in d["syms"].values() if not v["nt"])
+    for (a, na), (b, nb) in zip(tv, tv[1:]):
+        if a == b:
+            return "tokens %s and %s share the code %d" % (na, nb, a)
     for k in ("code", "union", "rest"):
         if d["ast"].get(k) != exp[k]:
             return "%s carried as %r, expected %r" % ({"code": "prologue", "union": "%union body", "rest": "epilogue"}[k], d["ast"].get(k), exp[k])
@@ -1944,6 +1949,8 @@ def c11_spec(rng):
         n = top + rng.randint(1, 3)
         sp["redecl"].append((t, n))
         sp["late_nums"] = {t: n}
+        if rng.random() < 0.5:
+            sp["redecl_tag"] = "val"          # `%token <val> T n`: the re-declaration carries a tag as well
     return sp
 
 
@@ -2015,8 +2022,14 @@ def check_C11(tier):
             for kind, gotv, wantv, msg in (("consts", sc["consts"], want_consts, "%s: constants %s differ from the token codes %s"),
                                            ("translate", sc["translate"], {v["value"]: ids[nm] for nm, v in terms.items()},
                                             "%s: translate switch %s differs from code->symbol %s")):
+                # the text is READABLE when most of the expected entries are found with their values; a readable
+                # table that differs (an entry too many, one missing, a wrong value) is a wrong table
+                agree = sum(1 for k, v in wantv.items() if gotv.get(k) == v)
                 if gotv == wantv:
                     scrape_ok[(target, kind)] = scrape_ok.get((target, kind), 0) + 1
+                elif wantv and agree * 2 >= len(wantv):
+                    scrape_ok[(target, kind)] = scrape_ok.get((target, kind), 0) + 1
+                    scrape_bad.setdefault((target, kind), []).append((c, msg % (target, gotv, wantv)))
                 else:
                     scrape_bad.setdefault((target, kind), []).append((c, msg % (target, gotv, wantv)))
         if why:
@@ -2082,6 +2095,15 @@ def c12_spec(rng):
         sp["rules"].append({"lhs": "U", "rhs": ["U", t], "prec": None})
         sp["rules"].append({"lhs": "U", "rhs": [t, "W"], "prec": None})
         rng.choice(sp["rules"][:-3])["rhs"].insert(0, "W")
+    # `start` is also the name of yaccgo's internal augmented symbol; as a user nonterminal it is legal
+    if plant.startswith("unproductive") or plant == "unreachable_unproductive" or plant == "none":
+        old_name = "U" if "U" in sp["nts"] else (rng.choice(sp["nts"][1:]) if len(sp["nts"]) > 1 else None)
+        if old_name and rng.random() < 0.3 and "start" not in sp["nts"]:
+            sp["nts"] = ["start" if n == old_name else n for n in sp["nts"]]
+            for r in sp["rules"]:
+                if r["lhs"] == old_name:
+                    r["lhs"] = "start"
+                r["rhs"] = ["start" if x == old_name else x for x in r["rhs"]]
     sp["plant"] = plant
     sp["eof_token"] = rng.random() < 0.3
     return sp
@@ -2251,6 +2273,24 @@ def check_C13(tier):
     violations, ties, samples = [], [], []
     hist = {}
     slowest = 0.0
+    # grammars far above the state limit: the construction must be cut off by the limit (run alone, with a
+    # deadline an order of magnitude above the 2-5 s the cut-off takes; without the limit it would run for weeks)
+    SLOW_DEADLINE = 60
+    for n_blow in ((16,) if tier == "quick" else (13, 16, 18)):
+        t = gen.blowup_grammar(n_blow)
+        f = os.path.join(work, "blow%d.y" % n_blow)
+        open(f, "w").write(t)
+        for mode, cmd in (("go", [cli, "generate", "go", f, os.path.join(work, "blow.out")]), ("debug", [cli, "debug", f])):
+            t0 = time.time()
+            try:
+                subprocess.run(cmd, stdout=subprocess.DEVNULL, stderr=subprocess.DEVNULL, timeout=SLOW_DEADLINE, cwd=work)
+                hist["statelimit:" + mode + ":finished"] = hist.get("statelimit:" + mode + ":finished", 0) + 1
+            except subprocess.TimeoutExpired:
+                violations.append({"key": common.finding_key({"blowup": n_blow, "mode": mode}),
+                                   "what": "yaccgo %s does not finish on a grammar with about %d LR(0) states (no cut-off at the state limit)" % (
+                                       "debug" if mode == "debug" else "generate", n_blow * 2 ** n_blow),
+                                   "replay": {"property": pid, "input_text": t, "command": mode, "deadline_s": SLOW_DEADLINE}})
+            slowest_special = time.time() - t0
     hangs = [r for r in results if r[2] == "HANG"]
     # a hang is re-run once alone before it is reported
     confirmed = []
@@ -2443,7 +2483,7 @@ def check_C18(tier):
     safe = []
     for c in cases:
         # names that contain the renderer's own separators cannot be read back (DESIGN §5 C18)
-        if any(ch in c["src"] for ch in ["'|'", "'{'", "'}'", "'\"'", "'<'", "'>'", "'%'"]):
+        if any(ch in c["src"] for ch in ["'|'", "'{'", "'}'", "'\"'", "'<'", "'>'"]):
             continue
         safe.append(c)
     inp = "".join(json.dumps({"id": c["id"], "src": c["src"]}) + "\n" for c in safe).encode()
@@ -2671,6 +2711,8 @@ def check_C19(tier):
         # truncate leaves their tail behind)
         before = ("PRE-EXISTING OUTPUT %s\n" % tag).encode() * (20 if ki % 2 else 4000)
         open(outp, "wb").write(before)
+        if ki % 3 == 0:
+            os.chmod(outp, 0o444)          # a read-only (e.g. checked-in) generated file
         try:
             p = subprocess.run([cli, "generate"] + flags + [target, inp, outp], stdout=subprocess.DEVNULL, stderr=subprocess.DEVNULL, timeout=60, cwd=work)
             rc = p.returncode
